@@ -76,6 +76,31 @@ func (c19) Run(c *mon.Ctx, i int) {
 		d = gen.Periodic(r, n, p)
 	}
 	ops := gen.Schedule(r, len(d.B), gen.FlushPositions(r, len(d.B)), gen.PartitionStyles[r.Intn(4)])
+	if i%10 == 9 {
+		// big and tiny Writes alternating, a Flush after each: a handful of
+		// pending bytes (below the 16 an assembly call needs) at a buffer
+		// position beyond one window
+		n := r.Range(20000, 60000)
+		if r.Bool() {
+			d = gen.Periodic(r, n, r.Pick(1, 2, 4, 16, 64))
+		} else {
+			d = gen.Make(r, []string{"equal", "text", "alpha2"}[r.Intn(3)], n)
+		}
+		ops = nil
+		for left := n; left > 0; {
+			k := r.Range(W+1, W+3000)
+			if len(ops)%4 == 2 {
+				k = r.Range(1, 20)
+			}
+			if k > left {
+				k = left
+			}
+			ops = append(ops, gen.Op{Kind: "write", N: k}, gen.Op{Kind: "flush"})
+			left -= k
+		}
+		ops = append(ops, gen.Op{Kind: "close"})
+		c.Count("tiny-tail-histories", 1)
+	}
 	// call pattern: in a third of the cases the Writer has served another stream
 	// before (written, perhaps closed, then Reset)
 	reused := i%3 == 1
